@@ -735,6 +735,13 @@ class CompositeCanvas(Canvas):
             # prepare next shard tail
             shard_tail = shard_body_tail(num_rows, sbody)
 
+    def _drop_trimmed_coords(self) -> None:
+        """Forget the cursor / pop up that was on content which has been trimmed off."""
+        cols, rows = self.cols(), self.rows()
+        self.coords = {
+            name: (x, y, data) for name, (x, y, data) in self.coords.items() if 0 <= x < cols and 0 <= y < rows
+        }
+
     def trim(self, top: int, count: int | None = None) -> None:
         """Trim lines from the top and/or bottom of canvas.
 
@@ -757,6 +764,7 @@ class CompositeCanvas(Canvas):
             self.shards = shards_trim_rows(self.shards, count)
 
         self.coords = self.translate_coords(0, -top)
+        self._drop_trimmed_coords()
 
     def trim_end(self, end: int) -> None:
         """Trim lines from the bottom of the canvas.
@@ -771,6 +779,7 @@ class CompositeCanvas(Canvas):
             raise self._finalized_error
 
         self.shards = shards_trim_rows(self.shards, self.rows() - end)
+        self._drop_trimmed_coords()
 
     def pad_trim_left_right(self, left: int, right: int) -> None:
         """
@@ -801,6 +810,8 @@ class CompositeCanvas(Canvas):
 
         self.coords = self.translate_coords(left, 0)
         self.shards = shards
+        if left < 0 or right < 0:
+            self._drop_trimmed_coords()
 
     def pad_trim_top_bottom(self, top: int, bottom: int) -> None:
         """
